@@ -48,7 +48,7 @@ CHECKS = {
   text="For all cost figures: a replacement is accepted only if it is no costlier in the chosen criterion and (strictly cheaper, or tied and no worse in every other criterion with one strictly better); candidate selection never returns a beaten candidate; item byte/gas figures equal an independent table for every item name and every operand; totals add exactly the per-block figures.",
   note=TRUST + "List-level figures use AbstractSeq summaries (map/filter/sum homomorphisms); block-level gas additivity across sub-blocks (warm/cold bookkeeping) is not claimed."),
  'C09': dict(
-  technique="contracts on ids2asm.id_to_asm_bytecode / asm_from_ids (item shape for every instruction kind, canonical hex for all words; VCs from the real AST, z3), the frame clause of the optimize_asm_contract gate and the rebuild shapes of C14, plus a bounded run of the whole tool on synthetic documents checked by an independent reader",
+  technique="contracts on ids2asm.id_to_asm_bytecode / asm_from_ids (item shape for every instruction kind, canonical hex for all words; VCs from the real AST, z3), the frame clause of the optimize_asm_contract gate, the loop-contract proof of rebuild_optimized_asm_block (see C14) and its bounded shapes, plus a bounded run of the whole tool on synthetic documents checked by an independent reader",
   category='other', ref='DESIGN.md section 4 (C09)',
   text="Proved: every item rebuilt from an instruction id has the instruction's name, numeric pushes carry the canonical lower-case hex of the word (all 2^256 values), pseudo pushes carry the specification's operand, unbound ids become basic stack operations and NOP is dropped; the optimized contract is a deep copy with only the code lists replaced. Bounded: on 7 synthetic documents x 3-7 option sets the skeleton (tags, JUMPDEST, jumps, terminals, split instructions with all fields), version, auxdata, data sections and source lists are unchanged, emitted items are well formed, pseudo-push operands occur in the input segment, and the output re-reads to itself.",
   note=TRUST + "Whole-document preservation is a bounded stand-in (synthetic documents, greedy back end)."),
@@ -61,17 +61,17 @@ CHECKS = {
   technique="purity obligations discharged by a scan of the real ASTs of everything reachable from the per-block entry points (run-dependent sources: clock, hash(), id(), uuid, pid, directory listings, resource usage; order-sensitive consumption of set-typed values), each site reviewed with a reason; plus bounded replays under different PYTHONHASHSEED values in separate processes",
   category='other', ref='DESIGN.md section 4 (C13)',
   text="Every call of a run-dependent source and every ordered consumption of a set inside the pipeline is a reviewed site that cannot reach a specification, a greedy sequence or an emitted file; identifier numbering iterates a sorted key list. A new unreviewed site fails. Bounded: ~80 blocks x 2 option sets produce identical specifications (identifiers included) and identical emitted code under 4 (thorough: 11) hash seeds in separate processes and scratch directories.",
-  note="Trusted: the purity scan (frames/purity.py), syntactic set-typedness inference; sites whose order-independence is argued in the reviewed table are backed by the hash-seed replay only (bounded)."),
+  note="Trusted: the purity scan (frames/purity.py), syntactic set-typedness inference; order-independence of the reviewed sites is argued structurally in contracts/c13.py (two sites accepted wrongly at first were real: finding F23, repaired)."),
  'C14': dict(
-  technique="bounded stand-ins on the real functions (no deductive proof yet): exhaustive shape enumeration for rebuild_optimized_asm_block and process_blocks_split against the join/replace specification, generated blocks for the splitting policies and the stack hand-over between sub-block specifications",
-  category='other', ref='DESIGN.md section 4 (C14)',
-  text="Bounded: all 7 536 (shape, replacement) combinations up to 3 sub-blocks (thorough: 4) rebuild to exactly the block with the chosen segments replaced, identity when nothing is replaced; for ~290 (block, policy) pairs (lengths 1..46, around the 22-instruction threshold, 3 policies) the reported sub-blocks join to the optimizable instruction list, are cut only at split instructions / stores, every specification key names a sub-block, original_instrs is the sub-block and the stack height change of each specification equals that of its sub-block.",
-  note="Tier B only: the loop invariants of rebuild_optimized_asm_block / split_blocks are not discharged deductively. Trusted: the enumerators and the join/replace specification in contracts/c14.py."),
+  technique="contract-based deductive verification of rebuild_optimized_asm_block under loop contracts (inductive invariants selected by the shape of each loop; lists of symbolic length as ropes of slices; VCs from the real AST, z3; counter-models replayed on the real function), plus bounded stand-ins on the real functions for the splitting policies and the stack hand-over between sub-block specifications",
+  category='other', ref='DESIGN.md section 4 (C14), section 9',
+  text="Proved for prefix, sub-blocks, replacements and suffix of ANY length, with the number of sub-blocks enumerated (1-2 quick, 3 thorough): on a well-formed splitting rebuild raises nothing, returns prefix ++ (replacement followed by the shared split item | original segment)* ++ rest, is the identity when nothing is replaced and leaves its input untouched. Bounded: all 7 536 (shape, replacement) combinations up to 3 sub-blocks (thorough: 4) - this case is also the stand-in when the loop annotations stop matching refactored code; for ~290 (block, policy) pairs (lengths 1..46, around the 22-instruction threshold, 3 policies) the reported sub-blocks join to the optimizable instruction list, are cut only at split instructions / stores, every specification key names a sub-block, original_instrs is the sub-block and the stack height change of each specification equals that of its sub-block.",
+  note=TRUST + "The number of sub-blocks is enumerated, not symbolic; items are opaque values observed through to_plain(), deepcopy(item) is an equal item; the PUSHLIB restoration loop is held to a frame contract only. The splitting policies themselves (split_blocks, get_subblocks) are bounded stand-ins."),
  'C15': dict(
-  technique="contract on the item parser/serializer pair (to_json(build_asm_bytecode(d)) = d for all field values and optional-field combinations, both PUSH0 settings; VCs from the real AST, z3), plus bounded stand-ins: exhaustive item-name sequences for the block partition, synthetic and shipped documents, plain-text spellings",
-  category='other', ref='DESIGN.md section 4 (C15)',
-  text="Proved for every item name of the vocabulary and all field values: parsing then serializing an item returns the same dictionary (a zero PUSH becomes PUSH0 under the flag, the documented exception; PUSHLIB through real_value). Bounded: all item-name sequences up to length 4 (5) are partitioned into non-empty blocks whose concatenation is the input; 3 synthetic documents (pseudo pushes, nested data, contracts without asm) and the shipped examples round-trip; 27 constant spellings keep their value and 50+ blocks survive text -> block -> text.",
-  note=TRUST + "Document and text round trips are bounded stand-ins."),
+  technique="contract on the item parser/serializer pair (to_json(build_asm_bytecode(d)) = d for all field values and optional-field combinations, both PUSH0 settings) and a loop contract on build_blocks_from_asm_representation (item lists of any length; VCs from the real AST, z3; counter-models replayed on the real function), plus bounded stand-ins: synthetic and shipped documents, plain-text spellings",
+  category='other', ref='DESIGN.md section 4 (C15), section 9',
+  text="Proved for every item name of the vocabulary and all field values: parsing then serializing an item returns the same dictionary (a zero PUSH becomes PUSH0 under the flag, the documented exception; PUSHLIB through real_value). Proved for item lists of ANY length: the blocks returned by build_blocks_from_asm_representation are non-empty and their concatenation is the list of parsed items in order (nothing lost, duplicated or reordered). Bounded: all item-name sequences up to length 4 (5) (also the stand-in of that proof); 3 synthetic documents (pseudo pushes, nested data, contracts without asm) and the shipped examples round-trip; 27 constant spellings keep their value and 50+ blocks survive text -> block -> text.",
+  note=TRUST + "In the partition proof build_asm_bytecode is used through its contract, the PUSHLIB numbering dictionary and AsmBlock's source_stack bookkeeping are abstracted, record names are assumed to be names of the opcode table. Document and text round trips are bounded stand-ins."),
  'C10': dict(
   technique="exceptional postconditions: safety/resource obligations of the folding and rule kernels (re-run from C03), containment contracts on greedy_from_json / greedy_standalone / search_optimal and on the drivers (stubs may raise), plus a bounded native run of the whole pipeline on corpus and edge blocks under a time budget",
   category='other', ref='DESIGN.md section 4 (C10)',
